@@ -175,26 +175,29 @@ def _strip_sub(t):
 def montecarlo(ctx):
     tr = _static(ctx, "_sim_bounds")
     eta, N = A("time_decay_factor"), P("denom")
-    # exponents N - i, i = 1..N
-    loc = {e.name: e.value for e in tr.of("local") if e.func.name == "_sim_bounds"}
-    ex = loc.get("exps")
+    # the weights are what is repeated into the simulation matrix: prods = [eta ** exps[i] ...], exps = [N - i for i in 1..N]
+    rp = [e for e in tr.calls() if e.callee == ("lib", "numpy.repeat") and e.func.name == "_sim_bounds"]
+    if not ctx.anchor("LinearFourRates._sim_bounds", "weight vector repeated into the simulation matrix (np.repeat)", len(rp) == 1 and rp[0].args):
+        return
+    pr = rp[0].args[0]
+    pa = pr.single_atom()
+    ok = False
+    ex = None
+    if pa is not None and pa[0] == "comp":
+        elt = pa[2][0].single_atom()
+        if elt is not None and elt[0] == "pow" and elt[1] == eta and (elt[2].single_atom() or ("",))[0] == "sub":
+            ex = elt[2].single_atom()[1]
+            ra = pa[3][0].single_atom()
+            ok = ra is not None and ra[0] == "call" and ra[1] == "range" and tuple(ra[2]) == (N,) and (elt[2].single_atom()[2].single_atom() or ("",))[0] == "idx"
+    ctx.ob("FRM", "LinearFourRates._sim_bounds", "weights are eta ** (N - i)", ok, q.short(pr, 120))
     ea = ex.single_atom() if ex is not None else None
     ok = False
     if ea is not None and ea[0] == "comp":
         elt, its = ea[2][0], ea[3]
         ra = its[0].single_atom() if its else None
-        ok = ra is not None and ra[0] == "call" and ra[1] == "range" and tuple(ra[2]) == (const(1), N + const(1)) and \
-            len(elt.atoms()) == 2 and T.same(elt - N + atom([x for x in elt.atoms() if x[0] == "idx"][0]) if any(x[0] == "idx" for x in elt.atoms()) else const(1), const(0))
+        ix = [x for x in elt.atoms() if x[0] == "idx"]
+        ok = ra is not None and ra[0] == "call" and ra[1] == "range" and tuple(ra[2]) == (const(1), N + const(1)) and len(ix) == 1 and T.same(elt, N - atom(ix[0]))
     ctx.ob("FRM", "LinearFourRates._sim_bounds", "weights have exponents N - i for i = 1..N", ok, q.short(ex, 120) if ex is not None else "")
-    pr = loc.get("prods")
-    pa = pr.single_atom() if pr is not None else None
-    ok = False
-    if pa is not None and pa[0] == "comp":
-        elt = pa[2][0].single_atom()
-        ok = elt is not None and elt[0] == "pow" and elt[1] == eta and (elt[2].single_atom() or ("",))[0] == "sub" and elt[2].single_atom()[1] == ex
-        ra = pa[3][0].single_atom()
-        ok = ok and ra is not None and ra[0] == "call" and ra[1] == "range" and tuple(ra[2]) == (N,)
-    ctx.ob("FRM", "LinearFourRates._sim_bounds", "weights are eta ** (N - i)", ok, q.short(pr, 120) if pr is not None else "")
     # get_Rj
     fi = ctx.prog.method("LinearFourRates", "_sim_bounds").nested.get("get_Rj")
     ctx.require(fi is not None, "_sim_bounds.get_Rj")
